@@ -564,6 +564,21 @@ impl<'m, 'a> Machine<'m, 'a> {
                     self.ev(Ev::FuncExit { f, cause: ExitCause::ReturnCall });
                     return self.call(*function_index, args, depth + 1);
                 }
+                O::ReturnCallIndirect { type_index, .. } => {
+                    let slot = pop_i32!() as usize;
+                    let callee = match self.m.table.get(slot) {
+                        Some(Some(c)) => *c,
+                        Some(None) => return Err(Stop::Trap("uninitialized element".into())),
+                        None => return Err(Stop::Trap("undefined element".into())),
+                    };
+                    if self.m.types[self.m.func_types[callee as usize] as usize] != self.m.types[*type_index as usize] {
+                        return Err(Stop::Trap("indirect call type mismatch".into()));
+                    }
+                    let n = self.m.types[*type_index as usize].0.len();
+                    let args = stack.split_off(stack.len() - n);
+                    self.ev(Ev::FuncExit { f, cause: ExitCause::ReturnCall });
+                    return self.call(callee, args, depth + 1);
+                }
                 O::Throw { tag_index } => {
                     self.ev(Ev::FuncExit { f, cause: ExitCause::Throw });
                     return Err(Stop::Exception(*tag_index, vec![]));
